@@ -6,7 +6,7 @@ from seed_table import rows
 R = rows()
 final = json.load(open('/verif/seeded/FINAL_RERUN.json'))
 metas = {os.path.basename(d.rstrip('/')): json.load(open(d + 'meta.json')) for d in sorted(glob.glob('/verif/seeded/*/')) if os.path.exists(d + 'meta.json')}
-def rnd(ID): return 1 if len(ID) == 3 else {'b': 2, 'c': 3, 'd': 3, 'e': 4, 'f': 4}[ID[3]]
+def rnd(ID): return 1 if len(ID) == 3 else {'b': 2, 'c': 3, 'd': 3, 'e': 4, 'f': 4, 'g': 5, 'h': 5}[ID[3]]
 per_round = {}
 for ID, m in metas.items():
     r = rnd(ID)
@@ -26,13 +26,18 @@ sec = f'''## 8. Seeded changes (detection evidence)
 Realistic property-breaking changes were produced by **fresh sub-agents**, each given only the text of
 one property (title, statement, anchors) and its own scratch git worktree of /repo (nothing from /verif),
 and asked for a change that still compiles, passes the 63 existing tests, needs something specific to
-manifest, and comes with a demonstration test.  Four rounds: 18 changes; 18 with a different emphasis per
+manifest, and comes with a demonstration test.  Five rounds: 18 changes; 18 with a different emphasis per
 property (other sites, "two cooperating conditions", multi-step sequences); 18 agents x 2 changes (A: spread
 over two sites that each look fine alone; B: needs a multi-step sequence or a value class no sampling
 generator reaches); and again 18 x 2 with the brief "the obvious mutations near the anchors are taken: find
 changes that manifest only on a rare-but-legal STRUCTURE (several boxes of a kind, unusual order or nesting,
 optional boxes in unusual combinations, boundary values on rarely-large fields) or on a particular SEQUENCE
-of public calls".  Each change was **re-confirmed by `bin/try_seeded.sh`** in a fresh scratch worktree (demo
+of public calls"; and a fifth time 18 x 2 with the brief "change a SHARED HELPER or type (box header reader,
+skip helpers, fixed-point and four-character-code types, the box-type table) so that only this property
+breaks under a stated condition, or make the change manifest for ONE media kind, ONE build profile (with or
+without arithmetic overflow checks) or ONE boundary value".  For round 5 the first-attempt column was measured
+with the harness exactly as committed before the sub-agents' summaries were read (a scratch worktree of /verif
+at fb9be64), then the checks were extended and measured again.  Each change was **re-confirmed by `bin/try_seeded.sh`** in a fresh scratch worktree (demo
 passes without the patch, fails with it; the existing suite passes with it: 65 = 59 + 4 + 2 tests), stored as
 `seeded/<id>/{{patch.diff, demo.rs, notes.md, meta.json}}`, applied to /repo (`git apply`), run against the
 quick tier of the relevant checks, and undone (`git checkout -- .`).  None is committed in /repo.  (Round 1
@@ -47,7 +52,7 @@ kept as `patch.orig.diff`.)
 (several also by a neighbouring check); `seeded/FINAL_RERUN.json` is the record of the last complete re-run
 of all of them against the harness and the /repo tree as committed (`bin/rerun_seeded.sh`).  The one that is
 not ({', '.join(obsolete)}) stopped being a defect: see its entry below.  First-attempt detection per round
-(by the check of their own property, before any strengthening): ''' + ', '.join(f"round {r}: {v[1]} of {v[0]}" for r, v in sorted(per_round.items())) + f''' — {first} of {total} in all.  Rounds 3 and 4 were briefed to
+(by the check of their own property, before any strengthening): ''' + ', '.join(f"round {r}: {v[1]} of {v[0]}" for r, v in sorted(per_round.items())) + f''' — {first} of {total} in all.  Rounds 3 to 5 were briefed to
 produce exactly what the machinery of the earlier rounds would plausibly miss, so their lower rate is the
 point of the exercise.  The {strengthened} marked *yes* were missed by the check of their own property as it
 stood (some were caught by a neighbour; C15 hit a harness build failure); `meta.json` keeps the earlier
